@@ -52,7 +52,7 @@ TARGETS = {
             "inStep_invariant", "delete_emits_wf", "deleteRange_emits_wf", "insertInline_emits_wf",
             "delete_emits_valid_payload", "deleteRange_emits_valid_payload", "delete_emits_payloadValid",
             "deleteRange_emits_payloadValid", "insertInline_emits_valid_payload", "payloadInv_step",
-            "fit_emits_valid_payload_of_inv", "fit_emits_valid_payload", "payloadInv_step_gen", "fit_emits_valid_payload_cut", "fit_replace_recorded_valid", "delete_recorded_valid"],
+            "fit_emits_valid_payload_of_inv", "fit_emits_valid_payload", "payloadInv_step_gen", "fit_emits_valid_payload_cut", "fit_replace_recorded_valid", "delete_recorded_valid", "fit_no_raise_partial", "fit_raise_sites"],
     "C12": ["canJoin_join_applies", "liftTarget_lift_applies_flat", "liftTarget_lift_applies", "insertPoint_insert_applies",
             "dropPoint_drop_applies_closed", "joinPoint_join_applies", "insertPoint_insert_text_applies",
             "insertPoint_insert_marked_top"],
